@@ -1,10 +1,13 @@
 package checks
 
 import (
+	"fmt"
+	"os"
+	"strings"
 	"time"
 
 	"github.com/glebziz/fs_db/verifh/conc"
-	_ "github.com/glebziz/fs_db/verifh/dbconc"
+	"github.com/glebziz/fs_db/verifh/dbconc"
 	"github.com/glebziz/fs_db/verifh/hk"
 )
 
@@ -77,8 +80,75 @@ func concCheck(id, tier string, quick, thorough time.Duration, progs []prog, qb,
 }
 
 func c06(tier string) int {
-	return concCheck("C06", tier, 300*time.Second, 40*time.Minute, c06Programs, 2, 3,
+	return concCheckGen("C06", tier, 420*time.Second, 60*time.Minute, c06Programs, 2, 3,
 		"every schedule with at most N deviations (preemptions, early timers, non-default select arms) of 10 client programs (2-4 clients: autocommit, RU/RC transactions, a GC actor, shared keys) over inline.Open..Close on the real stack; oracle: call/return history linearizable w.r.t. the sequential model (C01-C03), no deadlock, no panic, no leaked thread")
+}
+
+// concCheckGen is concCheck plus the systematically generated two-thread programs (dbconc.Programs):
+// quick: one item per thread at bound 1; thorough: one item per thread at bound 2 and two items at bound 1.
+func concCheckGen(id, tier string, quick, thorough time.Duration, progs []prog, qb, tb int, rule string) int {
+	budget := hk.NewBudget(dur(tier, quick, thorough))
+	rp := hk.NewReporter(id)
+	pool, err := conc.NewPool(0)
+	if err != nil {
+		return 3
+	}
+	defer pool.Close()
+	b := qb
+	var cap int64
+	if tier == "thorough" {
+		b = tb
+		cap = 4_000_000
+	}
+	var gen []conc.Item
+	for _, p := range dbconc.Programs(1) {
+		gb := 1
+		if tier == "thorough" {
+			gb = 2
+		} else if strings.HasPrefix(p, "I:Sa.Sa.Sb") || strings.HasSuffix(p, "|X") {
+			continue // quick: the single-version initial state, no GC actor (the named programs have one)
+		}
+		gen = append(gen, conc.Item{Name: "db", Params: p, MaxBound: gb, Label: id + "/generated"})
+	}
+	if tier == "thorough" {
+		for _, p := range dbconc.Programs(2)[len(dbconc.Programs(1)):] {
+			gen = append(gen, conc.Item{Name: "db", Params: p, MaxBound: 1, Label: id + "/generated"})
+		}
+	}
+	t0 := time.Now()
+	sumG := conc.RunMany(rp, pool, gen, budget, false)
+	if verbose() {
+		fmt.Fprintf(os.Stderr, "generated programs: %d items, %d executions, %.1fs\n", len(gen), sumG.Execs, time.Since(t0).Seconds())
+	}
+	var items []conc.Item
+	for _, p := range progs {
+		items = append(items, conc.Item{Name: "db", Params: p.src, MaxBound: b, MaxExecs: cap, Label: id + "/" + p.name})
+	}
+	// lock-discipline pass: the same programs with the writer preference of sync.RWMutex modelled (a
+	// pending writer blocks new readers), one deviation less — recursive read locking deadlocks only then
+	for _, p := range progs {
+		items = append(items, conc.Item{Name: "db", Params: p.src + ";wa=1", MaxBound: b - 1, MaxExecs: cap, Label: id + "/" + p.name + "+writer-preference"})
+	}
+	sum := conc.RunItems(rp, pool, items, budget, verbose())
+	sum.Execs += sumG.Execs
+	sum.Steps += sumG.Steps
+	sum.Nodes += sumG.Nodes
+	sum.Scenarios += sumG.Scenarios
+	sum.ViolExecs += sumG.ViolExecs
+	sum.AllComplete = sum.AllComplete && sumG.AllComplete
+	for k, v := range sumG.Outcomes {
+		sum.Outcomes["generated: "+k] += v
+	}
+	if len(sumG.Samples) > 6 {
+		sumG.Samples = sumG.Samples[:6]
+	}
+	sum.Samples = append(sum.Samples, sumG.Samples...)
+	cov := sum.Coverage(rule + "; plus every generated program of two client threads with one item each (two items each at bound 1 in the thorough tier) from an alphabet of 11 items (autocommit Set/Delete/Get/GetKeys/Create and whole RU/RC transactions) on key a, with and without a GC actor, from two initial states")
+	cov["generated_programs"] = len(gen)
+	ev := &hk.Evidence{PropertyID: id, Tier: tier, Level: "model_checking", Coverage: cov,
+		Assumptions: []string{"interleavings at visible operations (locks, atomics, channel and wait-group operations, timers, KV transactions, file-system calls); race freedom between them is C15",
+			"in-memory Badger engine, virtual clock; one pool worker unless stated", "the recorded call/return history of every execution is checked for linearizability against the reference model by exhaustive search"}}
+	return finish(rp, ev, budget)
 }
 
 func c07(tier string) int {
